@@ -179,6 +179,9 @@ func (gm *gameMon) push(t *track, m ref.Move) bool {
 
 	if gm.fl.results {
 		c.Eval(1)
+		if got := t.b.NoProgress(); got != ev.Clock {
+			c.Violate("result:clock", "after %v the board counts %d half-moves without pawn move or capture, the rules %d: %s", m, got, ev.Clock, gm.desc(t))
+		}
 		res := t.b.Result()
 		drawn := res.Outcome == board.Draw
 		lineDrawn := t.drawnInLine()
